@@ -135,24 +135,237 @@ Proof. destruct HS as (_ & _ & _ & _ & H & _). exact H. Qed.
 
 End Sorted.
 
+(* ---------------------------------------------------------------- the builder, for generic entry
+   predicates: P for the short table, Q for the long table *)
+Section Gen.
+Variable P : N -> Prop.
+Variable Q : N -> Prop.
+Hypothesis P_zero : P 0.
+Hypothesis P_single : forall s c, s <= 512 ->
+  P (u32 (N.lor (N.lor s (N.shiftl c 28)) (N.shiftl 1 26))).
+Hypothesis P_pair : forall s1 s2 c, s1 < 256 -> s2 <= 512 ->
+  P (u32 (N.lor (N.lor (N.lor s1 (N.shiftl s2 8)) (N.shiftl c 28)) (N.shiftl 2 26))).
+Hypothesis P_triple : forall s1 s2 s3 c, s1 < 256 -> s2 < 256 -> s3 <= 511 ->
+  P (u32 (N.lor (N.lor (N.lor (N.lor s1 (N.shiftl s2 8)) (N.shiftl s3 16)) (N.shiftl c 28))
+                (N.shiftl 3 26))).
+Hypothesis P_pointer : forall lcl maxLen, 13 <= maxLen <= 21 -> lcl + 2 ^ (maxLen - 12) <= 1264 ->
+  P (u32 (N.lor (N.lor lcl (N.shiftl maxLen 26)) largeFlagBit)).
+Hypothesis Q_zero : Q 0.
+Hypothesis Q_entry : forall sym len, sym <= 512 -> 13 <= len <= 21 ->
+  Q (u16 (N.lor sym (N.shiftl len 10))).
+
 (* ---------------------------------------------------------------- encodeSingles *)
 Lemma encodeSingles_ok : forall t d ll t' pan,
-  litlen_sorted d -> ll < 22 -> all_entries lit_short_ok t ->
+  litlen_sorted d -> ll < 22 -> all_entries P t ->
   encodeSingles t d ll = (t', pan) ->
-  pan = false /\ all_entries lit_short_ok t'.
+  pan = false /\ all_entries P t'.
 Proof.
   intros t d ll t' pan HS Hll Ht H. unfold encodeSingles in H.
   pose proof (lc_step d HS ll Hll) as H1.
   pose proof (lc_le_514 d HS (ll + 1) ltac:(lia)) as H2.
   destruct ((aget (litCount d) (ll + 1) <? aget (litCount d) ll) ||
             (516 <? aget (litCount d) (ll + 1))) eqn:E; [lia|].
-  inversion H; subst t' pan. clear H. split; [reflexivity|].
+  apply pair_equal_spec in H. destruct H as [Ht' Hp]. subst t' pan. split; [reflexivity|].
   apply forN_inv; [exact Ht|].
   intros k x _ Hx.
   destruct (maxLitLenSym <? indexToSym (aget (codeList d) k)) eqn:E2; [exact Hx|].
   apply all_entries_aset; [exact Hx|].
-  apply short_entry_ok.
-  - unfold maxLitLenSym in E2. change (2 ^ 25) with 33554432. lia.
-  - left. reflexivity.
+  apply P_single. unfold maxLitLenSym in E2. lia.
 Qed.
 
+(* the inner loop of encodePairs *)
+Lemma pairs_inner_ok : forall d sym1 sym1Code sym1Len sym2Len start endi t,
+  sym1 < 256 -> all_entries P t ->
+  all_entries P (fst (
+    forN start endi (fun k (a : arr * bool) =>
+      let '(t, stop) := a in
+      if stop then a
+      else
+        let sym2Index := aget (codeList d) k in
+        let sym2 := indexToSym sym2Index in
+        if maxLitLenSym <? sym2 then (t, true)
+        else
+          let sym2Code := hc_code (aget (litAndDistHuff d) sym2Index) in
+          let code := u32 (N.lor sym1Code (shl32 sym2Code sym1Len)) in
+          let codeLen := sym1Len + sym2Len in
+          (aset t code (u32 (N.lor (N.lor (N.lor sym1 (N.shiftl sym2 8))
+                                          (N.shiftl codeLen 28)) (N.shiftl 2 26))),
+           false))
+      (t, false))).
+Proof.
+  intros d sym1 sym1Code sym1Len sym2Len start endi t Hs1 Ht.
+  apply (forN_inv _ (fun a : arr * bool => all_entries P (fst a))); [exact Ht|].
+  intros k [x stop] _ Hx. cbn [fst] in Hx.
+  destruct stop; [exact Hx|]. cbv zeta.
+  destruct (maxLitLenSym <? indexToSym (aget (codeList d) k)) eqn:E2; [exact Hx|].
+  cbn [fst]. apply all_entries_aset; [exact Hx|].
+  apply P_pair; [exact Hs1|]. unfold maxLitLenSym in E2. lia.
+Qed.
+
+Lemma pairs_loop_ok : forall fuel t d ll minLen index1 t' e,
+  litlen_sorted d -> 2 * minLen <= ll -> ll <= 12 ->
+  aget (litCount d) minLen <= index1 -> index1 <= 514 -> 515 - index1 < N.of_nat fuel ->
+  all_entries P t ->
+  pairs_loop fuel t d ll index1 (aget (litCount d) (ll - minLen + 1)) = (t', e) ->
+  e = ENone /\ all_entries P t'.
+Proof.
+  induction fuel as [|f IH]; intros t d ll minLen index1 t' e HS Hm Hll Hlo Hhi Hfuel Ht H.
+  - lia.
+  - cbn [pairs_loop] in H.
+    destruct (index1 <? aget (litCount d) (ll - minLen + 1)) eqn:E1.
+    2:{ inversion H; subst. split; [reflexivity|exact Ht]. }
+    destruct (bucket_ex d HS minLen (ll - minLen + 1) index1 ltac:(lia) ltac:(lia) ltac:(lia))
+      as (L & HL & Hb & Hc & Hlen).
+    rewrite Hlen in H.
+    pose proof (lc_le_514 d HS (L + 1) ltac:(lia)) as HL1.
+    destruct (256 <=? indexToSym (aget (codeList d) index1)) eqn:E2.
+    + rewrite next_index_eq in H by lia.
+      apply (IH _ _ _ minLen _ _ _ HS Hm Hll) in H; [exact H|lia|lia|lia|exact Ht].
+    + rewrite (sub32_le ll L) in H by lia.
+      destruct (22 <=? ll - L) eqn:E3; [lia|].
+      pose proof (lc_step d HS (ll - L) ltac:(lia)) as H1.
+      pose proof (lc_le_514 d HS (ll - L + 1) ltac:(lia)) as H2.
+      destruct ((aget (litCount d) (ll - L + 1) <? aget (litCount d) (ll - L)) ||
+                (516 <? aget (litCount d) (ll - L + 1))) eqn:E4; [lia|].
+      match type of H with (let '(short, _) := ?X in _) = _ =>
+        pose proof (pairs_inner_ok d (indexToSym (aget (codeList d) index1))
+                     (hc_code (aget (litAndDistHuff d) (aget (codeList d) index1))) L (ll - L)
+                     (aget (litCount d) (ll - L)) (aget (litCount d) (ll - L + 1)) t
+                     ltac:(lia) Ht) as Hin;
+        destruct X as [t1 st1] eqn:EX
+      end.
+      cbn [fst] in Hin.
+      rewrite u16_small in H by lia.
+      apply (IH _ _ _ minLen _ _ _ HS Hm Hll) in H; [exact H|lia|lia|lia|exact Hin].
+Qed.
+
+Lemma encodePairs_ok : forall t d ll minLen t' e,
+  litlen_sorted d -> 2 * minLen <= ll -> ll <= 12 ->
+  all_entries P t ->
+  encodePairs t d ll minLen = (t', e) ->
+  e = ENone /\ all_entries P t'.
+Proof.
+  intros t d ll minLen t' e HS Hm Hll Ht H. unfold encodePairs in H.
+  rewrite sub32_le in H by lia.
+  pose proof (lc_le_514 d HS minLen ltac:(lia)) as H1.
+  apply (pairs_loop_ok _ _ _ _ minLen _ _ _ HS Hm Hll) in H; [exact H|lia|lia| |exact Ht].
+  unfold small_fuel. lia.
+Qed.
+
+(* ---------------------------------------------------------------- encodeTriples *)
+Lemma triples_inner_ok : forall d sym1 sym2 sym1Code sym2Code sym1Len sym2Len sym3Len start endi t,
+  sym1 < 256 -> sym2 < 256 -> all_entries P t ->
+  all_entries P (fst (
+    forN start endi (fun k (a : arr * bool) =>
+      let '(t, stop) := a in
+      if stop then a
+      else
+        let sym3Index := aget (codeList d) k in
+        let sym3 := indexToSym sym3Index in
+        let sym3Code := hc_code (aget (litAndDistHuff d) sym3Index) in
+        if maxLitLenSym - 1 <? sym3 then (t, true)
+        else
+          let code := u32 (N.lor (N.lor sym1Code (shl32 sym2Code sym1Len))
+                                 (shl32 sym3Code (sym2Len + sym1Len))) in
+          let codeLen := sym1Len + sym2Len + sym3Len in
+          (aset t code
+                (u32 (N.lor (N.lor (N.lor (N.lor sym1 (N.shiftl sym2 8)) (N.shiftl sym3 16))
+                                   (N.shiftl codeLen 28)) (N.shiftl 3 26))),
+           false))
+      (t, false))).
+Proof.
+  intros d sym1 sym2 sym1Code sym2Code sym1Len sym2Len sym3Len start endi t Hs1 Hs2 Ht.
+  apply (forN_inv _ (fun a : arr * bool => all_entries P (fst a))); [exact Ht|].
+  intros k [x stop] _ Hx. cbn [fst] in Hx.
+  destruct stop; [exact Hx|]. cbv zeta.
+  destruct (maxLitLenSym - 1 <? indexToSym (aget (codeList d) k)) eqn:E2; [exact Hx|].
+  cbn [fst]. apply all_entries_aset; [exact Hx|].
+  apply P_triple; [exact Hs1|exact Hs2|]. unfold maxLitLenSym in E2. lia.
+Qed.
+
+Lemma triples_loop2_ok : forall fuel t d ll minLen sym1 sym1Len sym1Code index2 t' e,
+  litlen_sorted d -> sym1 < 256 -> minLen <= sym1Len -> sym1Len + 2 * minLen <= ll -> ll <= 12 ->
+  aget (litCount d) minLen <= index2 -> index2 <= 514 -> 515 - index2 < N.of_nat fuel ->
+  all_entries P t ->
+  triples_loop2 fuel t d ll sym1 sym1Len sym1Code index2
+                (aget (litCount d) (ll - sym1Len - minLen + 1)) = (t', e) ->
+  e = ENone /\ all_entries P t'.
+Proof.
+  induction fuel as [|f IH];
+    intros t d ll minLen sym1 sym1Len sym1Code index2 t' e HS Hs1 Hm1 Hm Hll Hlo Hhi Hfuel Ht H.
+  - lia.
+  - cbn [triples_loop2] in H.
+    destruct (index2 <? aget (litCount d) (ll - sym1Len - minLen + 1)) eqn:E1.
+    2:{ inversion H; subst. split; [reflexivity|exact Ht]. }
+    destruct (bucket_ex d HS minLen (ll - sym1Len - minLen + 1) index2
+                ltac:(lia) ltac:(lia) ltac:(lia)) as (L & HL & Hb & Hc & Hlen).
+    rewrite Hlen in H.
+    pose proof (lc_le_514 d HS (L + 1) ltac:(lia)) as HL1.
+    destruct (256 <=? indexToSym (aget (codeList d) index2)) eqn:E2.
+    + rewrite next_index_eq in H by lia.
+      apply (IH _ _ _ minLen _ _ _ _ _ _ HS Hs1 Hm1 Hm Hll) in H; [exact H|lia|lia|lia|exact Ht].
+    + rewrite (sub32_le ll sym1Len) in H by lia.
+      rewrite (sub32_le (ll - sym1Len) L) in H by lia.
+      destruct (22 <=? ll - sym1Len - L) eqn:E3; [lia|].
+      match type of H with (let '(short, _) := ?X in _) = _ =>
+        pose proof (triples_inner_ok d sym1 (indexToSym (aget (codeList d) index2)) sym1Code
+                     (hc_code (aget (litAndDistHuff d) (aget (codeList d) index2)))
+                     sym1Len L (ll - sym1Len - L)
+                     (aget (litCount d) (ll - sym1Len - L))
+                     (aget (litCount d) (ll - sym1Len - L + 1)) t
+                     Hs1 ltac:(lia) Ht) as Hin;
+        destruct X as [t1 st1] eqn:EX
+      end.
+      cbn [fst] in Hin.
+      rewrite u16_small in H by lia.
+      apply (IH _ _ _ minLen _ _ _ _ _ _ HS Hs1 Hm1 Hm Hll) in H; [exact H|lia|lia|lia|exact Hin].
+Qed.
+
+Lemma triples_loop1_ok : forall fuel t d ll minLen index1 t' e,
+  litlen_sorted d -> 3 * minLen <= ll -> ll <= 12 ->
+  aget (litCount d) minLen <= index1 -> index1 <= 514 -> 515 - index1 < N.of_nat fuel ->
+  all_entries P t ->
+  triples_loop1 fuel t d ll minLen index1 (aget (litCount d) (ll - 2 * minLen + 1)) = (t', e) ->
+  e = ENone /\ all_entries P t'.
+Proof.
+  induction fuel as [|f IH]; intros t d ll minLen index1 t' e HS Hm Hll Hlo Hhi Hfuel Ht H.
+  - lia.
+  - cbn [triples_loop1] in H.
+    destruct (index1 <? aget (litCount d) (ll - 2 * minLen + 1)) eqn:E1.
+    2:{ inversion H; subst. split; [reflexivity|exact Ht]. }
+    destruct (bucket_ex d HS minLen (ll - 2 * minLen + 1) index1 ltac:(lia) ltac:(lia) ltac:(lia))
+      as (L & HL & Hb & Hc & Hlen).
+    rewrite Hlen in H.
+    pose proof (lc_le_514 d HS (L + 1) ltac:(lia)) as HL1.
+    destruct (256 <=? indexToSym (aget (codeList d) index1)) eqn:E2.
+    + rewrite next_index_eq in H by lia.
+      apply (IH _ _ _ minLen _ _ _ HS Hm Hll) in H; [exact H|lia|lia|lia|exact Ht].
+    + rewrite (sub32_le ll L) in H by lia.
+      destruct (ll - L <? 2 * minLen) eqn:E3.
+      { inversion H; subst. split; [reflexivity|exact Ht]. }
+      rewrite (sub32_le (ll - L) minLen) in H by lia.
+      destruct (23 <=? ll - L - minLen + 1) eqn:E4; [lia|].
+      destruct (triples_loop2 small_fuel t d ll (indexToSym (aget (codeList d) index1)) L
+                  (hc_code (aget (litAndDistHuff d) (aget (codeList d) index1)))
+                  (aget (litCount d) minLen) (aget (litCount d) (ll - L - minLen + 1)))
+        as [t1 e1] eqn:EL2.
+      pose proof (lc_le_514 d HS minLen ltac:(lia)) as Hml.
+      apply (triples_loop2_ok _ _ _ _ minLen _ _ _ _ _ _ HS) in EL2;
+        [|lia|lia|lia|lia|lia|lia|unfold small_fuel; lia|exact Ht].
+      destruct EL2 as [He1 Ht1]. subst e1.
+      rewrite u16_small in H by lia.
+      apply (IH _ _ _ minLen _ _ _ HS Hm Hll) in H; [exact H|lia|lia|lia|exact Ht1].
+Qed.
+
+Lemma encodeTriples_ok : forall t d ll minLen t' e,
+  litlen_sorted d -> 3 * minLen <= ll -> ll <= 12 ->
+  all_entries P t ->
+  encodeTriples t d ll minLen = (t', e) ->
+  e = ENone /\ all_entries P t'.
+Proof.
+  intros t d ll minLen t' e HS Hm Hll Ht H. unfold encodeTriples in H.
+  rewrite sub32_le in H by lia.
+  pose proof (lc_le_514 d HS minLen ltac:(lia)) as H1.
+  apply (triples_loop1_ok _ _ _ _ minLen _ _ _ HS Hm Hll) in H; [exact H|lia|lia| |exact Ht].
+  unfold small_fuel. lia.
+Qed.
